@@ -6,7 +6,9 @@ import harnesses, props
 V = os.path.join(os.path.dirname(os.path.abspath(__file__)), "..")
 times = {}
 for pid in props.CLAIMED:
-    p = os.path.join(V, "evidence", pid + ".json")
+    p = os.path.join(V, "evidence", "thorough", pid + ".json")
+    if not os.path.exists(p):
+        p = os.path.join(V, "evidence", pid + ".json")
     if os.path.exists(p):
         e = json.load(open(p))
         for h in e["coverage"]["engines"].get("E1", {}).get("harnesses", []):
@@ -14,6 +16,7 @@ for pid in props.CLAIMED:
                 times[h["harness"]] = (h["cbmc_time_s"], h["program_steps"], h["sat_vars"])
 for pid in sorted(props.CLAIMED):
     hs = [h for h in harnesses.H if pid in h["props"]]
+    hs.sort(key=lambda h: {"quick": 0, "thorough": 1, "unreached": 2}[h["tier"] if not (pid in h.get("quick_for", [])) else "quick"])
     if not hs:
         continue
     print(f"**{pid}** — E1 harnesses\n")
@@ -23,5 +26,8 @@ for pid in sorted(props.CLAIMED):
         t = times.get(h["name"])
         ts = f"{t[0]:.0f} ({t[1]})" if t else "—"
         kf = f" *(isolates {h['finding']})*" if h.get("finding") else ""
-        print(f"| `{h['name']}`{kf} | {h['tier']} | {'; '.join(h['unit'])[:110]} | {h['bound'][:150]} | {ts} |")
+        tier = "quick" if (h["tier"] == "quick" or pid in h.get("quick_for", [])) else h["tier"]
+        if tier == "unreached":
+            ts = "not run: " + h.get("unreached_because", "")
+        print(f"| `{h['name']}`{kf} | {tier} | {'; '.join(h['unit'])[:110]} | {h['bound'][:150]} | {ts} |")
     print()
